@@ -67,6 +67,16 @@ def refusal_probe(cfg):
             except BaseException as e:  # noqa
                 raised = type(e).__name__
             out.append({"call": "start-twice", "raised": raised, "before": before, "after": view()})
+            # ... and also once the simulation has run to completion
+            while not sim.is_finished() and env.now < 500:
+                sim.resume(until=env.now + 1)
+            before = view()
+            raised = ""
+            try:
+                sim.start()
+            except BaseException as e:  # noqa
+                raised = type(e).__name__
+            out.append({"call": "start-after-completion", "raised": raised, "before": before, "after": view()})
     finally:
         shutil.rmtree(wd, ignore_errors=True)
     return out
